@@ -121,7 +121,7 @@ EnvMayAct == /\ lpc # "done"
              /\ (Mode = "lockstep" => lpc = "top")
 \* lockstep: at most one stream has unread input, so that the order of dispatch does not depend on the
 \* iteration order of the HashMap
-SingleInput(c) == Mode = "lockstep" => \A d \in streams \ {c} : net[d] = <<>> /\ ~Gone(d)
+SingleInput(c) == Mode = "lockstep" => \A d \in Clients \ {c} : net[d] = <<>> /\ ~(Gone(d) /\ d \in streams)
 
 \* lockstep: one handshake at a time, so the order in the channel is the order of the connects
 ConnectPre(c) == cst[c] = "new" /\ (Mode = "lockstep" => pending = {})
@@ -177,8 +177,9 @@ RxEff(c) ==
 \* ---- any thread holding a Sender<OutgoingMessage> --------------------------
 OutSendEff(msg) == outgoing' = Append(outgoing, msg)
 
+\* a unicast needs a socket address: that of a client that has connected at some time (it may be gone)
 ExtPre(k, to) == /\ ext <= Len(ExtScript) /\ ExtScript[ext] = k
-                 /\ IF k = "uni" THEN to \in Clients ELSE to = NoClient
+                 /\ IF k = "uni" THEN to \in Clients /\ cst[to] # "new" ELSE to = NoClient
 ExtEff(k, to) ==
   /\ OutSendEff(Msg(k, to, "X", NoClient, ext, 1))
   /\ ext' = ext + 1
@@ -299,7 +300,7 @@ HDoneEff(w) ==
 (* The actions                                                             *)
 (***************************************************************************)
 Cl_Connect(c)     == EnvMayAct /\ ConnectPre(c) /\ ConnectEff(c) /\ UNCHANGED loopvars
-Srv_Enqueue(c)    == EnqueuePre(c) /\ EnqueueEff(c) /\ UNCHANGED loopvars
+Srv_Enqueue(c)    == lpc # "done" /\ EnqueuePre(c) /\ EnqueueEff(c) /\ UNCHANGED loopvars
 Cl_Send(c)        == EnvMayAct /\ SingleInput(c) /\ SendPre(c) /\ SendEff(c) /\ UNCHANGED loopvars
 Cl_Ping(c)        == EnvMayAct /\ SingleInput(c) /\ PingPre(c) /\ PingEff(c) /\ UNCHANGED loopvars
 Cl_Close(c)       == EnvMayAct /\ SingleInput(c) /\ ClosePre(c) /\ CloseEff(c) /\ UNCHANGED loopvars
